@@ -188,6 +188,27 @@ def gen_docs(prop, seed, n, profile="F", replay=None, max_depth=3, features=None
                 branches.append({"type": "string", "enum": ["Nothing"]})
             out.append(("ev%02d" % j, {"definitions": {"Ev": {"oneOf": branches}}}, ["oneof_external", "closed", "variant_order"]))
     if profile in ("F", "C05"):
+        # unions of objects sharing a required string member that is an enum of SEVERAL values in some branch (no serde tag)
+        for j, (e1, e2) in enumerate([(["circle", "ellipse"], ["square"]), (["a"], ["b", "c", "d"]), (["x", "y"], ["z", "w"])]):
+            out.append(("md%02d" % j, {"definitions": {"Shape": {"oneOf": [
+                {"type": "object", "properties": {"kind": {"type": "string", "enum": e1}, "r": {"type": "number"}}, "required": ["kind", "r"]},
+                {"type": "object", "properties": {"kind": {"type": "string", "enum": e2}, "side": {"type": "integer"}},
+                 "required": ["kind", "side"]}]}}}, ["oneof_objects", "multi_valued_discriminator"]))
+        # one member declared as number in one allOf branch and integer in another (every integer is a number), both orders,
+        # inline and through a reference
+        num_, int_ = {"type": "number"}, {"type": "integer"}
+        for j, (a_, b_) in enumerate([(num_, int_), (int_, num_)]):
+            br = [{"type": "object", "properties": {"id": {"type": "string"}, "value": a_}, "required": ["id"]},
+                  {"type": "object", "properties": {"value": b_, "unit": {"type": "string"}}}]
+            out.append(("ni%02d" % j, {"definitions": {"Reading": {"allOf": br}}}, ["allof_objects", "number_integer"]))
+            out.append(("ni%02d" % (j + 2), {"definitions": {"Part": br[0], "Reading": {"allOf": [{"$ref": "#/definitions/Part"}, br[1]]}}},
+                        ["allof_objects", "allof_ref", "number_integer"]))
+        # a closed branch next to a branch that spells out additionalProperties: true
+        for j, order in enumerate([(0, 1), (1, 0)]):
+            br = [{"type": "object", "properties": {"name": {"type": "string"}}, "required": ["name"], "additionalProperties": False},
+                  {"type": "object", "properties": {"name": {}}, "additionalProperties": True}]
+            out.append(("ct%02d" % j, {"definitions": {"Closed": {"allOf": [br[order[0]], br[order[1]]]}}}, ["allof_objects", "closed_and_explicitly_open"]))
+    if profile in ("F", "C05"):
         # OPTIONAL containers that may not be empty when present: omitted must stay omitted
         oc = {"type": "object", "required": ["name"], "properties": {
             "name": {"type": "string"},
